@@ -973,4 +973,477 @@ theorem stepLineEnd_iif (c : List Nat) (ch : List LoopRef) (pre sub : List (Tag 
   rw [hclose]
 
 
+theorem insideRole_true (f : IifFields) (id i : Nat) (t : Tag R)
+    (h : SubIn t (f.off + f.trueOff) (f.off + f.trueOff + f.trueLen))
+    (hin : (decide (i < id) == decide (f.trueOff < f.falseOff)) = true) : insideRole f id i t = true := by
+  obtain ⟨s, e, o, h1, _, h3, h4, h5, h6⟩ := h
+  simp only [insideRole, h1, hin, if_true, Bool.and_eq_true, decide_eq_true_eq]
+  exact ⟨by omega, by omega, by omega⟩
+
+theorem insideRole_false (f : IifFields) (id i : Nat) (t : Tag R)
+    (h : SubIn t (f.off + f.falseOff) (f.off + f.falseOff + f.falseLen))
+    (hin : (decide (i < id) == decide (f.trueOff < f.falseOff)) = false) : insideRole f id i t = true := by
+  obtain ⟨s, e, o, h1, _, h3, h4, h5, h6⟩ := h
+  simp only [insideRole, h1, hin, Bool.false_eq_true, if_false, Bool.and_eq_true, decide_eq_true_eq]
+  exact ⟨by omega, by omega, by omega⟩
+
+/-- what `closeIif` needs to know about the sub tags of the two values -/
+theorem iif_facts (f2 : IifFields) (tagsT tagsF : List (Tag R))
+    (hT : ∀ t ∈ tagsT, SubIn t (f2.off + f2.trueOff) (f2.off + f2.trueOff + f2.trueLen))
+    (hF : ∀ t ∈ tagsF, SubIn t (f2.off + f2.falseOff) (f2.off + f2.falseOff + f2.falseLen))
+    (hcase : (f2.trueOff ≠ 0 ∧ f2.trueOff + f2.trueLen < f2.falseOff) ∨ (f2.falseOff = 0 ∧ f2.trueOff ≠ 0 ∧ tagsF = []) ∨
+      (f2.trueOff = 0 ∧ f2.falseOff ≠ 0 ∧ tagsT = [])) :
+    (f2.trueOff ≠ 0 ∨ f2.falseOff ≠ 0) ∧ f2.trueOff ≠ f2.falseOff ∧
+    ∃ id, id ≤ tagsT.length ∧
+      startIdScan ((if f2.trueOff < f2.falseOff then f2.falseOff else f2.trueOff) + f2.off) (tagsT ++ tagsF) 0 = (id, false) ∧
+      allRole f2 id 0 (tagsT ++ tagsF) = true ∧
+      (f2.trueOff < f2.falseOff → id = tagsT.length) ∧ (¬ f2.trueOff < f2.falseOff → id = 0) := by
+  have hoT : ∀ t ∈ tagsT, ∃ o, subTagOffset t = some o ∧ f2.off + f2.trueOff ≤ o ∧ o < f2.off + f2.trueOff + f2.trueLen := by
+    intro t ht; obtain ⟨s, e, o, _, h2, h3, h4, h5, h6⟩ := hT t ht; exact ⟨o, h2, by omega, by omega⟩
+  have hoF : ∀ t ∈ tagsF, ∃ o, subTagOffset t = some o ∧ f2.off + f2.falseOff ≤ o := by
+    intro t ht; obtain ⟨s, e, o, _, h2, h3, h4, h5, h6⟩ := hF t ht; exact ⟨o, h2, by omega⟩
+  rcases hcase with ⟨h1, h2⟩ | ⟨h1, h2, h3⟩ | ⟨h1, h2, h3⟩
+  · -- both values: true first
+    have hlt : f2.trueOff < f2.falseOff := by omega
+    refine ⟨Or.inl h1, by omega, tagsT.length, Nat.le_refl _, ?_, ?_, fun _ => rfl, fun h => absurd hlt h⟩
+    · simp only [hlt, if_true]
+      have := startIdScan_split (f2.falseOff + f2.off) tagsT tagsF 0
+        (fun t ht => by obtain ⟨o, ho, _, ho2⟩ := hoT t ht; exact ⟨o, ho, by omega⟩)
+        (fun t ht => by obtain ⟨o, ho, ho2⟩ := hoF t ht; exact ⟨o, ho, by omega⟩)
+      simpa using this
+    · apply allRole_of
+      intro k t hk
+      simp only [Nat.zero_add]
+      by_cases hkl : k < tagsT.length
+      · rw [List.getElem?_append_left hkl] at hk
+        exact insideRole_true f2 _ k t (hT t (List.mem_of_getElem? hk)) (by simp [hkl, hlt])
+      · rw [List.getElem?_append_right (by omega)] at hk
+        exact insideRole_false f2 _ k t (hF t (List.mem_of_getElem? hk)) (by simp [hkl, hlt])
+  · -- only `true`
+    subst h3
+    have hnlt : ¬ f2.trueOff < f2.falseOff := by omega
+    refine ⟨Or.inl h2, by omega, 0, Nat.zero_le _, ?_, ?_, fun h => absurd h hnlt, fun _ => rfl⟩
+    · simp only [hnlt, if_false, List.append_nil]
+      have := startIdScan_split (f2.trueOff + f2.off) [] tagsT 0 (by intro t ht; cases ht)
+        (fun t ht => by obtain ⟨o, ho, ho2, _⟩ := hoT t ht; exact ⟨o, ho, by omega⟩)
+      simpa using this
+    · apply allRole_of
+      intro k t hk
+      simp only [List.append_nil] at hk
+      exact insideRole_true f2 _ _ t (hT t (List.mem_of_getElem? hk)) (by simp [hnlt])
+  · -- only `false`
+    subst h3
+    have hlt : f2.trueOff < f2.falseOff := by omega
+    refine ⟨Or.inr h2, by omega, 0, Nat.zero_le _, ?_, ?_, fun _ => rfl, fun _ => rfl⟩
+    · simp only [hlt, if_true, List.nil_append]
+      have := startIdScan_split (f2.falseOff + f2.off) [] tagsF 0 (by intro t ht; cases ht)
+        (fun t ht => by obtain ⟨o, ho, ho2⟩ := hoF t ht; exact ⟨o, ho, by omega⟩)
+      simpa using this
+    · apply allRole_of
+      intro k t hk
+      simp only [List.nil_append] at hk
+      exact insideRole_false f2 _ _ t (hF t (List.mem_of_getElem? hk)) (by simp [hlt])
+
+
+/-- the printed attributes of an inline-if -/
+def attrText (ts fs : Option (List Seg)) : List Nat :=
+  (match ts with | some l => TRUEA ++ (printSegs l ++ [34]) | none => []) ++
+  (match fs with | some l => FALSEA ++ (printSegs l ++ [34]) | none => [])
+
+/-- the same as a run of segments (the attribute names and quotes are text) -/
+def attrSegs (ts fs : Option (List Seg)) : List Seg :=
+  (match ts with | some l => .text TRUEA :: (l ++ [.text [34]]) | none => []) ++
+  (match fs with | some l => .text FALSEA :: (l ++ [.text [34]]) | none => [])
+
+theorem printSegs_append : ∀ (a b : List Seg), printSegs (a ++ b) = printSegs a ++ printSegs b := by
+  intro a
+  induction a with
+  | nil => intro b; simp [printSegs]
+  | cons s r ih => intro b; simp [printSegs, ih, List.append_assoc]
+
+theorem printSegs_attrSegs (ts fs : Option (List Seg)) : printSegs (attrSegs ts fs) = attrText ts fs := by
+  cases ts <;> cases fs <;> simp [attrSegs, attrText, printSegs, printSeg, printSegs_append, List.append_assoc]
+
+/-- units of the `true` attribute -/
+def tLen (ts : Option (List Seg)) : Nat := match ts with | some l => 8 + (printSegs l).length | none => 0
+def fLen (fs : Option (List Seg)) : Nat := match fs with | some l => 9 + (printSegs l).length | none => 0
+
+theorem attrText_len (ts fs : Option (List Seg)) : (attrText ts fs).length = tLen ts + fLen fs := by
+  cases ts <;> cases fs <;> simp [attrText, tLen, fLen, TRUEA, FALSEA] <;> omega
+
+/-- the fields the attribute scan sets (`start` = offset after the case's closing quote) -/
+def attrFields (p start : Nat) (ts fs : Option (List Seg)) (f1 : IifFields) : IifFields :=
+  let fT : IifFields := match ts with
+    | some l => { f1 with trueOff := start + 7 - p, trueLen := (printSegs l).length }
+    | none => f1
+  match fs with
+  | some l => { fT with falseOff := start + tLen ts + 8 - p, falseLen := (printSegs l).length }
+  | none => fT
+
+/-- the attribute scan on the printed attributes -/
+theorem iifAttrs_chain (c A rest : List Nat) (ts fs : Option (List Seg))
+    (hc : c = A ++ (attrText ts fs ++ ([125] ++ rest)))
+    (hT : ∀ l, ts = some l → ∀ x ∈ printSegs l, x ≠ 34) (hF : ∀ l, fs = some l → ∀ x ∈ printSegs l, x ≠ 34)
+    (p to : Nat) (f1 : IifFields) (hp : f1.off = p) (hpA : p ≤ A.length)
+    (hsz : A.length + (attrText ts fs).length + 1 - p < 65536) :
+    iifAttrs c (A.length + (attrText ts fs).length + 1) to (A.length + (attrText ts fs).length + 1 + 2) A.length false f1 =
+      .ok { f := attrFields p A.length ts fs f1 } := by
+  have hlen := attrText_len ts fs
+  have t16 : ∀ n, n < 65536 → trunc bits_InLineIfTag_TrueOffset n = n ∧ trunc bits_InLineIfTag_TrueLength n = n ∧
+      trunc bits_InLineIfTag_FalseOffset n = n ∧ trunc bits_InLineIfTag_FalseLength n = n := by
+    intro n hn
+    simp only [trunc, show bits_InLineIfTag_TrueOffset = 16 by decide, show bits_InLineIfTag_TrueLength = 16 by decide,
+      show bits_InLineIfTag_FalseOffset = 16 by decide, show bits_InLineIfTag_FalseLength = 16 by decide]
+    have : n % 2 ^ 16 = n := Nat.mod_eq_of_lt (by omega)
+    exact ⟨this, this, this, this⟩
+  cases ts with
+  | none =>
+    cases fs with
+    | none =>
+      simp only [attrText, List.append_nil, List.nil_append, List.length_nil, Nat.add_zero] at hc ⊢
+      have h0 : c[A.length]? = some 125 := by rw [hc]; simp
+      rw [show A.length + 1 + 2 = (A.length + 2) + 1 by omega]
+      rw [iifAttrs_end c _ _ _ _ _ _ h0 (by omega)]
+      simp [attrFields]
+    | some lf =>
+      simp only [attrText, List.nil_append] at hc hsz ⊢
+      have hF' := hF lf rfl
+      have hl : (FALSEA ++ (printSegs lf ++ [34])).length = 9 + (printSegs lf).length := by simp [FALSEA]; omega
+      rw [hl] at hsz ⊢
+      have hc1 : c = A ++ (FALSEA ++ (printSegs lf ++ ([34] ++ ([125] ++ rest)))) := by rw [hc]; simp [List.append_assoc]
+      rw [show A.length + (9 + (printSegs lf).length) + 1 + 2 = (A.length + (9 + (printSegs lf).length) + 2) + 1 by omega]
+      have hcl : A.length + (9 + (printSegs lf).length) + 1 ≤ c.length := by rw [hc1]; simp [FALSEA]; omega
+      rw [iifAttrs_false c A (printSegs lf) ([125] ++ rest) hc1 hF' _ _ _ _ (by omega) hcl]
+      have h0 : c[A.length + 9 + (printSegs lf).length]? = some 125 := by
+        have := get_after (A ++ FALSEA ++ printSegs lf ++ [34]) [] 125 rest
+        have hlx : (A ++ FALSEA ++ printSegs lf ++ [34]).length + ([] : List Nat).length = A.length + 9 + (printSegs lf).length := by
+          simp [FALSEA]; omega
+        rw [hlx] at this
+        rw [hc1, ← this]; simp [List.append_assoc]
+      rw [show A.length + (9 + (printSegs lf).length) + 2 = (A.length + (9 + (printSegs lf).length) + 1) + 1 by omega]
+      rw [iifAttrs_end c _ _ _ _ _ _ h0 (by omega)]
+      simp only [attrFields, tLen, hp, Nat.add_zero]
+      rw [(t16 (A.length + 8 - p) (by omega)).2.2.1, (t16 (printSegs lf).length (by omega)).2.2.2]
+  | some lt =>
+    have hT' := hT lt rfl
+    cases fs with
+    | none =>
+      simp only [attrText, List.append_nil] at hc hsz ⊢
+      have hl : (TRUEA ++ (printSegs lt ++ [34])).length = 8 + (printSegs lt).length := by simp [TRUEA]; omega
+      rw [hl] at hsz ⊢
+      have hc1 : c = A ++ (TRUEA ++ (printSegs lt ++ ([34] ++ ([125] ++ rest)))) := by rw [hc]; simp [List.append_assoc]
+      rw [show A.length + (8 + (printSegs lt).length) + 1 + 2 = (A.length + (8 + (printSegs lt).length) + 2) + 1 by omega]
+      have hcl : A.length + (8 + (printSegs lt).length) + 1 ≤ c.length := by rw [hc1]; simp [TRUEA]; omega
+      rw [iifAttrs_true c A (printSegs lt) ([125] ++ rest) hc1 hT' _ _ _ _ _ (by omega) hcl]
+      have h0 : c[A.length + 8 + (printSegs lt).length]? = some 125 := by
+        have := get_after (A ++ TRUEA ++ printSegs lt ++ [34]) [] 125 rest
+        have hlx : (A ++ TRUEA ++ printSegs lt ++ [34]).length + ([] : List Nat).length = A.length + 8 + (printSegs lt).length := by
+          simp [TRUEA]; omega
+        rw [hlx] at this
+        rw [hc1, ← this]; simp [List.append_assoc]
+      rw [show A.length + (8 + (printSegs lt).length) + 2 = (A.length + (8 + (printSegs lt).length) + 1) + 1 by omega]
+      rw [iifAttrs_end c _ _ _ _ _ _ h0 (by omega)]
+      simp only [attrFields, hp]
+      rw [(t16 (A.length + 7 - p) (by omega)).1, (t16 (printSegs lt).length (by omega)).2.1]
+    | some lf =>
+      have hF' := hF lf rfl
+      simp only [attrText] at hc hsz ⊢
+      have hl : (TRUEA ++ (printSegs lt ++ [34]) ++ (FALSEA ++ (printSegs lf ++ [34]))).length =
+          8 + (printSegs lt).length + (9 + (printSegs lf).length) := by simp [TRUEA, FALSEA]; omega
+      rw [hl] at hsz ⊢
+      have hcl : A.length + (8 + (printSegs lt).length + (9 + (printSegs lf).length)) + 1 ≤ c.length := by
+        rw [hc]; simp [TRUEA, FALSEA]; omega
+      have hc1 : c = A ++ (TRUEA ++ (printSegs lt ++ ([34] ++ (FALSEA ++ (printSegs lf ++ [34]) ++ ([125] ++ rest))))) := by
+        rw [hc]; simp [List.append_assoc]
+      rw [show A.length + (8 + (printSegs lt).length + (9 + (printSegs lf).length)) + 1 + 2 =
+        (A.length + (8 + (printSegs lt).length + (9 + (printSegs lf).length)) + 2) + 1 by omega]
+      rw [iifAttrs_true c A (printSegs lt) _ hc1 hT' _ _ _ _ _ (by omega) hcl]
+      have hc2 : c = (A ++ TRUEA ++ printSegs lt ++ [34]) ++ (FALSEA ++ (printSegs lf ++ ([34] ++ ([125] ++ rest)))) := by
+        rw [hc]; simp [List.append_assoc]
+      have hl2 : (A ++ TRUEA ++ printSegs lt ++ [34]).length = A.length + 8 + (printSegs lt).length := by
+        simp [TRUEA]; omega
+      rw [show A.length + (8 + (printSegs lt).length + (9 + (printSegs lf).length)) + 2 =
+        (A.length + (8 + (printSegs lt).length + (9 + (printSegs lf).length)) + 1) + 1 by omega, ← hl2]
+      rw [iifAttrs_false c _ (printSegs lf) ([125] ++ rest) hc2 hF' _ _ _ _ (by rw [hl2]; omega) hcl]
+      have h0 : c[(A ++ TRUEA ++ printSegs lt ++ [34]).length + 9 + (printSegs lf).length]? = some 125 := by
+        have := get_after (A ++ TRUEA ++ printSegs lt ++ [34] ++ FALSEA ++ printSegs lf ++ [34]) [] 125 rest
+        have hlx : (A ++ TRUEA ++ printSegs lt ++ [34] ++ FALSEA ++ printSegs lf ++ [34]).length + ([] : List Nat).length =
+            (A ++ TRUEA ++ printSegs lt ++ [34]).length + 9 + (printSegs lf).length := by
+          simp [TRUEA, FALSEA]; omega
+        rw [hlx] at this
+        rw [hc2, ← this]; simp [List.append_assoc]
+      rw [show A.length + (8 + (printSegs lt).length + (9 + (printSegs lf).length)) + 1 =
+        (A.length + (8 + (printSegs lt).length + (9 + (printSegs lf).length))) + 1 by omega]
+      rw [iifAttrs_end c _ _ _ _ _ _ h0 (by rw [hl2]; omega)]
+      simp only [attrFields, tLen, hp, hl2]
+      rw [(t16 (A.length + 7 - p) (by omega)).1, (t16 (printSegs lt).length (by omega)).2.1,
+        (t16 (A.length + 8 + (printSegs lt).length + 8 - p) (by omega)).2.2.1, (t16 (printSegs lf).length (by omega)).2.2.2]
+      rw [show A.length + 8 + (printSegs lt).length + 8 - p = A.length + (8 + (printSegs lt).length) + 8 - p by omega]
+
+
+theorem tagsOfD_append (cfg : ScanCfg R) (c : List Nat) (D : List LoopD) : ∀ (a b : List Seg) (p : Nat),
+    tagsOfD cfg c D p (a ++ b) = tagsOfD cfg c D p a ++ tagsOfD cfg c D (p + (printSegs a).length) b := by
+  intro a
+  induction a with
+  | nil => intro b p; simp [tagsOfD, printSegs]
+  | cons s r ih =>
+    intro b p
+    cases s with
+    | text t => simp only [List.cons_append, tagsOfD, ih, printSegs, printSeg, List.length_append]; congr 2; omega
+    | var pa => simp only [List.cons_append, tagsOfD, ih, printSegs, printSeg, List.length_append, List.cons_append]; congr 3; simp; omega
+    | raw pa => simp only [List.cons_append, tagsOfD, ih, printSegs, printSeg, List.length_append, List.cons_append]; congr 3; simp; omega
+    | math e => simp only [List.cons_append, tagsOfD, ih, printSegs, printSeg, List.length_append, List.cons_append]; congr 3; simp; omega
+
+/-- the sub tags of the `true` / `false` values -/
+def tagsVal (cfg : ScanCfg R) (c : List Nat) (D : List LoopD) (p : Nat) (v : Option (List Seg)) : List (Tag R) :=
+  match v with
+  | some l => tagsOfD cfg c D p l
+  | none => []
+
+theorem tagsOfD_attrSegs (cfg : ScanCfg R) (c : List Nat) (D : List LoopD) (start : Nat) (ts fs : Option (List Seg)) :
+    tagsOfD cfg c D start (attrSegs ts fs) =
+      tagsVal cfg c D (start + 7) ts ++ tagsVal cfg c D (start + tLen ts + 8) fs := by
+  cases ts <;> cases fs <;>
+    simp [attrSegs, tagsVal, tagsOfD, tagsOfD_append, tLen, printSegs, printSeg, TRUEA, FALSEA, printSegs_append,
+      Nat.add_assoc] <;> (congr 1; omega)
+
+theorem nTags_append : ∀ (a b : List Seg), nTags (a ++ b) = nTags a + nTags b := by
+  intro a
+  induction a with
+  | nil => intro b; simp [nTags]
+  | cons s r ih => intro b; cases s <;> simp [nTags, ih] <;> omega
+
+def nTagsVal (v : Option (List Seg)) : Nat := match v with | some l => nTags l | none => 0
+
+theorem nTags_attrSegs (ts fs : Option (List Seg)) : nTags (attrSegs ts fs) = nTagsVal ts + nTagsVal fs := by
+  cases ts <;> cases fs <;> simp [attrSegs, nTagsVal, nTags, nTags_append]
+
+
+/-- the printed inline-if -/
+def printIif (e : List Nat) (ts fs : Option (List Seg)) : List Nat :=
+  IIF1 ++ (e ++ ([34] ++ (attrText ts fs ++ [125])))
+
+theorem printIif_len (e : List Nat) (ts fs : Option (List Seg)) :
+    (printIif e ts fs).length = 12 + e.length + tLen ts + fLen fs := by
+  simp [printIif, IIF1, attrText_len]; omega
+
+/-- side conditions on a value of an inline-if: covered segments free of `"` -/
+def ValOk (v : Option (List Seg)) : Prop := ∀ l, v = some l → (∀ s ∈ l, s.ok) ∧ ∀ x ∈ printSegs l, x ≠ 34
+
+/-- the record of the printed inline-if before the start id is set -/
+def iifF2 (p : Nat) (e : List Nat) (ts fs : Option (List Seg)) : IifFields :=
+  attrFields p (p + 11 + e.length) ts fs { off := p, trueOff := 0, len := 12 + e.length + tLen ts + fLen fs }
+
+/-- the start id: the number of sub tags of the `true` value when both values are present -/
+def iifId (cfg : ScanCfg R) (c : List Nat) (D : List LoopD) (p : Nat) (e : List Nat) (ts fs : Option (List Seg)) : Nat :=
+  if (iifF2 p e ts fs).trueOff < (iifF2 p e ts fs).falseOff then (tagsVal cfg c D (p + 11 + e.length + 7) ts : List (Tag R)).length else 0
+
+/-- the tag `parse` stores for the printed inline-if at `p` -/
+def iifTag (cfg : ScanCfg R) (c : List Nat) (D : List LoopD) (p : Nat) (e : List Nat) (ts fs : Option (List Seg)) : Tag R :=
+  .iif (itemsAtC cfg c (refsD D) (p + 10) (p + 10 + e.length))
+    (tagsVal cfg c D (p + 11 + e.length + 7) ts ++ tagsVal cfg c D (p + 11 + e.length + tLen ts + 8) fs)
+    (iifFinal (iifF2 p e ts fs) (iifId cfg c D p e ts fs))
+
+theorem attrFields_off (p start : Nat) (ts fs : Option (List Seg)) (f1 : IifFields) :
+    (attrFields p start ts fs f1).off = f1.off := by
+  cases ts <;> cases fs <;> rfl
+
+theorem tagsVal_sub (cfg : ScanCfg R) (c : List Nat) (D : List LoopD) (p : Nat) (v : Option (List Seg)) (hv : ValOk v) :
+    ∀ t ∈ (tagsVal cfg c D p v : List (Tag R)), SubIn t p (p + (match v with | some l => (printSegs l).length | none => 0)) := by
+  cases v with
+  | none => intro t ht; simp [tagsVal] at ht
+  | some l => intro t ht; exact tagsOfD_sub cfg c D l p (hv l rfl).1 t ht
+
+theorem SubIn.cast {t : Tag R} {a b a' b' : Nat} (h : SubIn t a b) (ha : a = a') (hb : b = b') : SubIn t a' b' :=
+  ha ▸ hb ▸ h
+
+theorem mem_printMP : ∀ (parts : List (List Nat × List Nat)) (tp : List Nat × List Nat), tp ∈ parts →
+    (∀ x ∈ tp.1, x ∈ printMP parts) ∧ (∀ x ∈ tp.2, x ∈ printMP parts) := by
+  intro parts
+  induction parts with
+  | nil => intro tp h; cases h
+  | cons a r ih =>
+    obtain ⟨t, p⟩ := a
+    intro tp htp
+    rcases List.mem_cons.mp htp with h | h
+    · subst h
+      exact ⟨fun x hx => by simp [printMP, hx], fun x hx => by simp [printMP, hx]⟩
+    · obtain ⟨h1, h2⟩ := ih tp h
+      exact ⟨fun x hx => by simp only [printMP, List.mem_append]; exact Or.inr (h1 x hx),
+        fun x hx => by simp only [printMP, List.mem_append]; exact Or.inr (h2 x hx)⟩
+
+/-- a printed inline-if: the main loop from its `{if` to the unit after its `}` -/
+theorem parse_iif (cfg : ScanCfg R) (c : List Nat) (hn : c.length + 16 < 4294967296) (D : List LoopD) (hD : ChainD c D)
+    (stk : List (Frame R)) (e : List Nat) (ts fs : Option (List Seg)) (pre post : List Nat) (acc : List (Tag R))
+    (fuel o m o' m' : Nat)
+    (hc : c = pre ++ (printIif e ts fs ++ post)) (he : MathOk e) (he34 : ∀ x ∈ e, x ≠ 34)
+    (hts : ValOk ts) (hfs : ValOk fs) (hone : ts ≠ none ∨ fs ≠ none) (hsz : (printIif e ts fs).length < 65536)
+    (hnext : next c pre.length = .ok (o, m))
+    (hfin : next c (pre.length + (printIif e ts fs).length) = .ok (o', m')) :
+    parseMain cfg c (fuel + (2 + nTagsVal ts + nTagsVal fs)) (stAtC (refsD D) false stk acc o m) =
+      parseMain cfg c fuel (stAtC (refsD D) false stk (acc ++ [iifTag cfg c D pre.length e ts fs]) o' m') := by
+  obtain ⟨parts, last, rfl, hl, hall⟩ := he
+  have hlen := printIif_len (printMP parts ++ last) ts fs
+  have hatl := attrText_len ts fs
+  -- no quote in the case text
+  have hl34 : ∀ x ∈ last, x ≠ 34 := fun x hx => he34 x (List.mem_append_right _ hx)
+  have hp34 : ∀ x ∈ printMP parts, x ≠ 34 := fun x hx => he34 x (List.mem_append_left _ hx)
+  have h34 : ∀ tp ∈ parts, (∀ x ∈ tp.1, x ≠ 34) ∧ ∀ x ∈ tp.2, x ≠ 34 := fun tp htp =>
+    ⟨fun x hx => hp34 x ((mem_printMP parts tp htp).1 x hx), fun x hx => hp34 x ((mem_printMP parts tp htp).2 x hx)⟩
+  -- positions
+  have hc1 : c = pre ++ (IIF1 ++ (printMP parts ++ last ++ [34] ++ (attrText ts fs ++ [125] ++ post))) := by
+    rw [hc]; simp [printIif, List.append_assoc]
+  have g := fun i (hi : i < 10) => get_mid pre IIF1 (printMP parts ++ last ++ [34] ++ (attrText ts fs ++ [125] ++ post)) i
+    (by simpa [IIF1] using hi)
+  have gi : ∀ i (hi : i < 10), c[pre.length + i]? = IIF1[i]? := by intro i hi; rw [hc1]; exact g i hi
+  have hat : next c pre.length = .ok (pre.length + 3, 6) :=
+    next_at_iif c pre.length hn (gi 0 (by omega)) (gi 1 (by omega)) (gi 2 (by omega)) (gi 4 (by omega)) (gi 5 (by omega))
+  rw [hat] at hnext
+  simp only [Except.ok.injEq, Prod.mk.injEq] at hnext
+  obtain ⟨rfl, rfl⟩ := hnext
+  -- the attribute region as segments
+  have hcs : c = (pre ++ IIF1 ++ (printMP parts ++ last) ++ [34]) ++ (printSegs (attrSegs ts fs) ++ ([125] ++ post)) := by
+    rw [hc1, printSegs_attrSegs]; simp [List.append_assoc]
+  have hls : (pre ++ IIF1 ++ (printMP parts ++ last) ++ [34]).length = pre.length + 11 + (printMP parts ++ last).length := by
+    simp [IIF1]; omega
+  have hle : pre.length + 11 + (printMP parts ++ last).length ≤ c.length := by rw [← hls, hcs]; simp
+  obtain ⟨oF, mF, hnF, _, _, _, hzero⟩ := next_safe_total c _ hle
+  -- the closing `}`
+  have hcl : c[pre.length + 11 + (printMP parts ++ last).length + (attrText ts fs).length]? = some 125 := by
+    have := get_after (pre ++ IIF1 ++ (printMP parts ++ last) ++ [34]) (printSegs (attrSegs ts fs)) 125 post
+    rw [hls, printSegs_attrSegs] at this
+    rw [hcs, printSegs_attrSegs]; exact this
+  have hmF : mF ≠ 0 := by
+    intro h0
+    have hfacts := next_facts c hn _ oF mF hle hnF
+    have hoc := hzero h0
+    have hpos := (List.getElem?_eq_some_iff.mp hcl).1
+    have hsk := hfacts.skipped (pre.length + 11 + (printMP parts ++ last).length + (attrText ts fs).length) (by omega)
+      (by rw [h0, hoc]; simp only [mLen]; omega) 125 hcl
+    exact hsk rfl
+  have hclose : next c (pre.length + 11 + (printMP parts ++ last).length + (attrText ts fs).length) =
+      .ok (pre.length + 11 + (printMP parts ++ last).length + (attrText ts fs).length + 1, 1) := next_at_close c _ hcl
+  -- step 1: `{if`
+  obtain ⟨cs, hex0⟩ := Qentem.Expr.parseTop_total ({ cfg with loopVar := loopVarPure c (refsD D) } : ScanCfg R) c
+    (pre.length + 10) (pre.length + 10 + (printMP parts ++ last).length) (by omega)
+  have hex : exprs cfg c (refsD D) (pre.length + 10) (pre.length + 10 + (printMP parts ++ last).length) = .ok cs := hex0
+  have hstep1 := stepIif_print cfg c hn (refsD D) stk acc pre (attrText ts fs ++ [125] ++ post) last parts hc1 hl hl34 hall h34
+    oF mF (by rw [show pre.length + 10 + (printMP parts ++ last).length + 1 = pre.length + 11 + (printMP parts ++ last).length by omega]; exact hnF)
+    hmF (by rw [hlen] at hsz; omega) cs hex
+  have hd6 : step cfg c (stAtC (refsD D) false stk acc (pre.length + 3) 6) = stepIif cfg c (stAtC (refsD D) false stk acc (pre.length + 3) 6) := by
+    simp only [step, stAtC]; rfl
+  -- step 2: the values
+  have hseg : ∀ s ∈ attrSegs ts fs, s.ok := by
+    intro s hs
+    have hpT : plainL TRUEA := by intro x hx; simp [TRUEA] at hx; rcases hx with h | h | h | h | h | h | h <;> subst h <;> (unfold plainU; decide)
+    have hpF : plainL FALSEA := by intro x hx; simp [FALSEA] at hx; rcases hx with h | h | h | h | h | h | h | h <;> subst h <;> (unfold plainU; decide)
+    have hpq : plainL [34] := by intro x hx; simp at hx; subst hx; unfold plainU; decide
+    cases ts <;> cases fs <;> simp [attrSegs] at hs
+    · rcases hs with h | h | h
+      · subst h; exact hpF
+      · exact (hfs _ rfl).1 s h
+      · subst h; exact hpq
+    · rcases hs with h | h | h
+      · subst h; exact hpT
+      · exact (hts _ rfl).1 s h
+      · subst h; exact hpq
+    · rcases hs with h | h | h | h | h | h
+      · subst h; exact hpT
+      · exact (hts _ rfl).1 s h
+      · subst h; exact hpq
+      · subst h; exact hpF
+      · exact (hfs _ rfl).1 s h
+      · subst h; exact hpq
+  have hrun := parseMain_segsC cfg c hn D hD true (.iif acc cs { off := pre.length, trueOff := 11 + (printMP parts ++ last).length } :: stk)
+    ([125] ++ post) (attrSegs ts fs) (pre ++ IIF1 ++ (printMP parts ++ last) ++ [34]) [] (fuel + 1) oF mF _ _ hcs hseg
+    (by rw [hls]; exact hnF) (by rw [hls, printSegs_attrSegs]; exact hclose)
+  rw [hls, tagsOfD_attrSegs, nTags_attrSegs] at hrun
+  simp only [List.nil_append] at hrun
+  -- step 3: the closing `}`
+  have hlenE : pre.length + 11 + (printMP parts ++ last).length + (attrText ts fs).length + 1 =
+      pre.length + (printIif (printMP parts ++ last) ts fs).length := by rw [hlen, hatl]; omega
+  have hattr := iifAttrs_chain c (pre ++ IIF1 ++ (printMP parts ++ last) ++ [34]) post ts fs
+    (by rw [hcs, printSegs_attrSegs]) (fun l h => (hts l h).2) (fun l h => (hfs l h).2) pre.length
+    (11 + (printMP parts ++ last).length)
+    { off := pre.length, trueOff := 0, len := 12 + (printMP parts ++ last).length + tLen ts + fLen fs } rfl
+    (by rw [hls]; omega) (by rw [hls, hatl]; rw [hlen] at hsz; omega)
+  rw [hls] at hattr
+  have hf2 : attrFields pre.length (pre.length + 11 + (printMP parts ++ last).length) ts fs
+      { off := pre.length, trueOff := 0, len := 12 + (printMP parts ++ last).length + tLen ts + fLen fs } =
+      iifF2 pre.length (printMP parts ++ last) ts fs := rfl
+  rw [hf2] at hattr
+  have hoff2 : (iifF2 pre.length (printMP parts ++ last) ts fs).off = pre.length := by
+    simp [iifF2, attrFields_off]
+  have hfacts := iif_facts (iifF2 pre.length (printMP parts ++ last) ts fs)
+    (tagsVal cfg c D (pre.length + 11 + (printMP parts ++ last).length + 7) ts)
+    (tagsVal cfg c D (pre.length + 11 + (printMP parts ++ last).length + tLen ts + 8) fs)
+    (by
+      intro t ht
+      have := tagsVal_sub cfg c D _ ts hts t ht
+      rw [hoff2]
+      cases ts with
+      | none => simp [tagsVal] at ht
+      | some l =>
+        cases fs <;> exact this.cast (by simp [iifF2, attrFields]; omega) (by simp [iifF2, attrFields]; omega))
+    (by
+      intro t ht
+      have := tagsVal_sub cfg c D _ fs hfs t ht
+      rw [hoff2]
+      cases fs with
+      | none => simp [tagsVal] at ht
+      | some l =>
+        cases ts <;> exact this.cast (by simp [iifF2, attrFields, tLen]; omega) (by simp [iifF2, attrFields, tLen]; omega))
+    (by
+      cases ts with
+      | none =>
+        cases fs with
+        | none => rcases hone with h | h <;> exact absurd rfl h
+        | some lf => right; right; simp [iifF2, attrFields, tagsVal, tLen]; omega
+      | some lt =>
+        cases fs with
+        | none => right; left; simp [iifF2, attrFields, tagsVal]; omega
+        | some lf => left; simp [iifF2, attrFields, tLen]; omega)
+  obtain ⟨hnz, hne, id, _, hscan, hrole, hid1, hid2⟩ := hfacts
+  have hidE : id = iifId cfg c D pre.length (printMP parts ++ last) ts fs := by
+    unfold iifId
+    by_cases h : (iifF2 pre.length (printMP parts ++ last) ts fs).trueOff < (iifF2 pre.length (printMP parts ++ last) ts fs).falseOff
+    · simp only [h, if_true]; exact hid1 h
+    · simp only [h, if_false]; exact hid2 h
+  have hcloseI := closeIif_gen c (refsD D) acc
+    (tagsVal cfg c D (pre.length + 11 + (printMP parts ++ last).length + 7) ts ++
+      tagsVal cfg c D (pre.length + 11 + (printMP parts ++ last).length + tLen ts + 8) fs) cs
+    { off := pre.length, trueOff := 11 + (printMP parts ++ last).length }
+    (iifF2 pre.length (printMP parts ++ last) ts fs) stk
+    (pre.length + 11 + (printMP parts ++ last).length + (attrText ts fs).length + 1) 1
+    (by simp only []; omega)
+    (by
+      simp only []
+      have htl : trunc bits_InLineIfTag_Length (pre.length + 11 + (printMP parts ++ last).length + (attrText ts fs).length + 1 - pre.length) =
+          12 + (printMP parts ++ last).length + tLen ts + fLen fs := by
+        simp only [trunc, show bits_InLineIfTag_Length = 16 by decide]
+        rw [hlen] at hsz
+        rw [hatl]
+        have : pre.length + 11 + (printMP parts ++ last).length + (tLen ts + fLen fs) + 1 - pre.length =
+          12 + (printMP parts ++ last).length + tLen ts + fLen fs := by omega
+        rw [this]; exact Nat.mod_eq_of_lt (by omega)
+      rw [htl]
+      rw [show pre.length + (11 + (printMP parts ++ last).length) = pre.length + 11 + (printMP parts ++ last).length by omega]
+      exact hattr)
+    hnz hne id (by rw [hoff2] at hscan ⊢; exact hscan) hrole
+  have hfn : finderNext c (stAtC (refsD D) false stk
+      (acc ++ [.iif cs (tagsVal cfg c D (pre.length + 11 + (printMP parts ++ last).length + 7) ts ++
+        tagsVal cfg c D (pre.length + 11 + (printMP parts ++ last).length + tLen ts + 8) fs)
+        (iifFinal (iifF2 pre.length (printMP parts ++ last) ts fs) id)])
+      (pre.length + 11 + (printMP parts ++ last).length + (attrText ts fs).length + 1) 1) =
+      .ok (stAtC (refsD D) false stk _ o' m') :=
+    finderNext_stAtC c (refsD D) false stk _ _ 1 _ _ (by rw [hlenE]; exact hfin)
+  have hstep3 := (stepLineEnd_iif c (refsD D) acc _ cs _ stk _ _ hcloseI).trans hfn
+  have hd1 : ∀ st : PState R, st.mtch = 1 → step cfg c st = stepLineEnd c st := by
+    intro st hst; simp only [step, hst]; first | done | rfl
+  rw [show fuel + (2 + nTagsVal ts + nTagsVal fs) = (fuel + 1 + (nTagsVal ts + nTagsVal fs)) + 1 by omega,
+    parseMain_step cfg c _ _ _ (by simp [stAtC]) (hd6.trans hstep1), hrun,
+    parseMain_step cfg c _ _ _ (by simp [stAtC]) ((hd1 _ rfl).trans hstep3)]
+  simp only [iifTag, itemsAtC, hex, hidE]
+
+
 end Qentem.Tmpl
